@@ -41,6 +41,9 @@ def strategy_(g):
         case["struct"] = g.choice(["id", "type-same-numbers", "type", "subclass"]) if level == "vertex" else g.choice(["type-same-numbers", "type", "subclass"])
         # R^n poses keep a view of the caller's float64 array: x and y may be two columns of one point table (one buffer)
         case["table"] = g.choice([False, False, True])
+        # history: the pair is compared once, then BOTH R^n poses are rescaled in place (through the arrays they are views of) and
+        # compared again - the verdict is about the current numbers
+        case["rescale"] = g.choice([None, None, 1e3, 1e-3, 1e6])
     elif level == "edge":
         kind = g.choice(["builtin", "builtin", "custom"])
         if kind == "builtin":
@@ -206,6 +209,14 @@ def check(case, ctx):
                     x, y = vx, vy
                 else:
                     x, y = gs.Vertex(case["ida"], vx), gs.Vertex(case["ida"], vy)
+            px, py = (x, y) if level == "pose" else (x.pose, y.pose)
+            nrm = min(float(np.linalg.norm(np.asarray(px))), float(np.linalg.norm(np.asarray(py))))
+            # (the comparison is relative to |pose| only while |pose| > tol: the rescaling must stay inside that regime)
+            if case.get("rescale") and case["a"]["k"] in ("r2", "r3") and nrm * min(1.0, case["rescale"]) > 10 * tol:
+                ctx.event("rescaled-in-place-after-a-first-comparison")
+                x.equals(y, tol), y.equals(x, tol)
+                np.asarray(px)[...] *= case["rescale"]
+                np.asarray(py)[...] *= case["rescale"]
             return _expect(ctx, level, x, y, tol, rel != "above", "%s of %s" % (rel, case["a"]["k"]))
         if rel == "mixed":
             y = mk(case["b"])
